@@ -287,6 +287,16 @@ def cnot(c):
             return Cond("true")
         if c.op == "any":
             return Cond("any", c.a[0], not c.a[1])
+        if c.op == "in" and isinstance(c.a[0], Bits):
+            v, lo, hi = c.a
+            parts = []
+            if lo > 0:
+                parts.append(mkcmp("Lt", v, Bits.const(lo, max(v.w, lo.bit_length() or 1))))
+            if hi < (1 << v.w) - 1:
+                parts.append(mkcmp("Gt", v, Bits.const(hi, max(v.w, hi.bit_length() or 1))))
+            if not parts:
+                return Cond("false")
+            return parts[0] if len(parts) == 1 else Cond("or", *parts)
         if c.op == "and":
             return Cond("or", *[cnot(x) for x in c.a])
         if c.op == "or":
@@ -309,6 +319,18 @@ def mkcmp(op, a, b):
         x, y = a.value(), b.value()
         r = {"Eq": x == y, "Ne": x != y, "Lt": x < y, "Le": x <= y, "Gt": x > y, "Ge": x >= y}[op]
         return Cond("true" if r else "false")
+    # integer comparisons with a constant: `x >= c` is written `x > c-1`, `x <= c` is written `x < c+1`
+    if isinstance(b, Bits) and b.is_const() and not (isinstance(a, Bits) and a.is_const()):
+        if op == "Ge" and b.value() > 0:
+            op, b = "Gt", Bits.const(b.value() - 1, b.w)
+        elif op == "Le" and b.value() < (1 << b.w) - 1:
+            op, b = "Lt", Bits.const(b.value() + 1, max(b.w, (b.value() + 1).bit_length()))
+    # bit vectors are unsigned: x < 0 never, x >= 0 always
+    if isinstance(a, Bits) and isinstance(b, Bits) and b.is_const() and b.value() == 0:
+        if op == "Lt":
+            return Cond("false")
+        if op == "Ge":
+            return Cond("true")
     # trim common zero high bits for canonical form
     if isinstance(a, Bits) and isinstance(b, Bits):
         w = max(a.w, b.w)
